@@ -481,8 +481,11 @@ type Contract struct {
 	Params   []string // for extern/callback: parameter names; for func: positional names (receiver first)
 	Locals   []LocalDecl
 	NoInline bool
-	File     string
-	Line     int
+	// PlainSends: number of blocking channel sends outside a `select` that the function (with
+	// the helpers inlined into it) is declared to contain, each justified in the contract text
+	PlainSends int
+	File       string
+	Line       int
 }
 
 // LocalDecl: `local NAME TYPE` — a local or captured variable the contract mentions.
@@ -580,7 +583,7 @@ func loadSpecLines(path string) ([]specLine, error) {
 var clauseKeywords = map[string]bool{
 	"func": true, "extern": true, "callback": true, "pure": true, "ghostfield": true, "chaninv": true, "axiom": true, "uf": true, "ghostvar": true, "guardedby": true, "joins": true, "delivers": true, "thread": true, "owner": true, "owned": true,
 	"requires": true, "ensures": true, "modifies": true, "let": true, "ghost": true, "returns": true,
-	"at": true, "trusted": true, "noinline": true, "params": true, "local": true,
+	"at": true, "trusted": true, "noinline": true, "plainsends": true, "params": true, "local": true,
 }
 
 func isClauseStart(t string) bool {
@@ -948,6 +951,14 @@ func (ss *SpecSet) parseLine(l specLine, cur **Contract) error {
 		c.Trusted = true
 	case kw == "noinline":
 		c.NoInline = true
+	case kw == "plainsends":
+		// plainsends N <why each of them cannot block for ever>
+		w, _ := splitWord(rest)
+		n, err := strconv.Atoi(w)
+		if err != nil {
+			return fmt.Errorf("plainsends needs a count")
+		}
+		c.PlainSends = n
 	case strings.HasPrefix(kw, "loop#"):
 		k, err := strconv.Atoi(kw[5:])
 		if err != nil {
